@@ -18,7 +18,8 @@ import (
 const Rule = "cases = (implementation, hash function, HashOpts, shuffle seed, op sequence on two tables) drawn from VERIF_SEED: " +
 	"hash in {fnv, identity, constant, mod 3, mod initial capacity}; options = defaults or a larger prime / power of two with dyadic " +
 	"load-factor bounds no looser than the defaults; small key universes (collisions, re-insertion of deleted keys), growth and " +
-	"shrink sweeps across every resize boundary, churn with fresh keys; every mutating op is compared with the Model on m, n, u, p and a " +
+	"shrink sweeps across every resize boundary, churn with fresh keys, fill / DeleteAll cycles with fresh keys below the grow threshold, " +
+	"grow / DeleteAll / reuse; every mutating op (put, delete, deleteall) is compared with the Model on m, n, u, p and a " +
 	"digest of all occupied slots; non-trivial = the history had a probe/chain walk of length >= 3 or at least one resize; " +
 	"distinct = distinct (header, op list)"
 
@@ -255,13 +256,20 @@ func ExecMode(c hx.Case, mode Mode) hx.Result {
 		}
 		// probe bound (C03) and walk-length tag
 		if f[0] == "put" || f[0] == "get" || f[0] == "delete" {
-			var g, fd int
-			okp := hx.WithTimeout(mode.Watchdog, func() { g, fd = symboltable.VerifProbes(t, arg(1), 4*before.mOr(t)+4) })
-			if !okp {
-				g, fd = -1, -1
-			}
+			g, fd := safeProbes(t, arg(1), mode.Watchdog)
 			if g >= 3 || fd >= 3 {
 				longWalk = true
+			}
+			// After one hang has been observed for real in this process, further lookups whose probe walk
+			// (the same closure, the same stop conditions, 4m+4 steps: more than four periods) does not stop are
+			// reported as hangs without being executed: every executed one leaks a goroutine that spins forever.
+			// Put is always executed (it may re-hash before it probes).
+			if HangsObserved > 0 && ((f[0] == "get" && g == -1) || (f[0] == "delete" && fd == -1)) {
+				res.Outs = append(res.Outs, "hang")
+				bad(i, "%s would not return: its probe walk does not stop within %d steps", op, 4*before.mOr(t)+4)
+				tags["hang"] = true
+				tags["hang-predicted"] = true
+				break
 			}
 			if mode.ProbeBound {
 				st, _ := symboltable.VerifHashSlots(t)
@@ -357,7 +365,7 @@ func ExecMode(c hx.Case, mode Mode) hx.Result {
 				case "dump":
 					out = "ok " + symboltable.VerifHashDump(t)
 				case "probes":
-					g, fd := symboltable.VerifProbes(t, arg(1), 4*before.mOr(t)+4)
+					g, fd := safeProbes(t, arg(1), mode.Watchdog)
 					out = fmt.Sprintf("ok get=%d find=%d", g, fd)
 				}
 			})
@@ -366,6 +374,7 @@ func ExecMode(c hx.Case, mode Mode) hx.Result {
 			res.Outs = append(res.Outs, "hang")
 			bad(i, "%s did not return within %v", op, mode.Watchdog)
 			tags["hang"] = true
+			HangsObserved++
 			break
 		}
 		if kind != "" {
@@ -438,6 +447,49 @@ func ExecMode(c hx.Case, mode Mode) hx.Result {
 	return res
 }
 
+// HangsObserved counts the implementation calls of this process that did not return.
+var HangsObserved int
+
+// safeProbes measures the probe walks of key through the hook; a walk that panics (an index outside the
+// allocated slots) or does not come back counts as -1.
+func safeProbes(t table, key int, watchdog time.Duration) (g, fd int) {
+	g, fd = -1, -1
+	hx.WithTimeout(watchdog, func() {
+		hx.Try(func() {
+			st, _ := symboltable.VerifHashSlots(t)
+			a, b := symboltable.VerifProbes(t, key, 4*st.M+4)
+			g, fd = a, b
+		})
+	})
+	return
+}
+
+// Limiter bounds a run: wall-clock budget per tier (much shorter when bin/check is searching for a witness
+// after something broke: its output directory ends in "-search"), stop after the first observed hang that has
+// produced a replay, stop after a handful of replays.
+type Limiter struct {
+	start time.Time
+	limit time.Duration
+}
+
+func NewLimiter(run *hx.Run) *Limiter {
+	l := &Limiter{start: time.Now(), limit: 50 * time.Second}
+	if run.Thorough() {
+		l.limit = 8 * time.Minute
+	}
+	if strings.HasSuffix(strings.TrimRight(run.Out, "/"), "-search") {
+		l.limit = 20 * time.Second
+	}
+	return l
+}
+
+func (l *Limiter) Search() bool { return l.limit <= 20*time.Second }
+
+func (l *Limiter) Stop(run *hx.Run) bool {
+	v := len(run.Stats.Violations)
+	return time.Since(l.start) > l.limit || (HangsObserved > 0 && v > 0) || v >= 6
+}
+
 // mOr returns the capacity recorded in a snapshot, or reads it from the table when the snapshot is empty.
 func (s snapshot) mOr(t table) int {
 	if s.m > 0 {
@@ -459,7 +511,7 @@ func capsFor(comp string) []int {
 	case "linear":
 		return []int{0, 0, 32, 64, 128, 256}
 	}
-	return []int{0, 0, 31, 37, 61, 127, 257}
+	return []int{0, 0, 31, 37, 59, 61, 127, 131, 257, 263} // 59, 131, 263: doubling lands just below 11^2 resp. 23^2
 }
 
 // lfFor returns dyadic (min, max) bounds no looser than the defaults ("" = default).
@@ -606,6 +658,85 @@ func GenChurn(r *hx.Rand, base, cycles int, probes bool) []string {
 	return ops
 }
 
+// effective capacity and the number of keys Put accepts before it grows the table, read from a header
+func growThreshold(hdr string) int {
+	comp := hx.HeaderGet(hdr, "comp")
+	cp, _ := strconv.Atoi(hx.HeaderGet(hdr, "cap"))
+	if cp == 0 {
+		cp = MinCap(comp)
+	}
+	mx := parseLF(hx.HeaderGet(hdr, "maxlf"))
+	if mx == 0 {
+		mx = 0.5
+		if comp == "chain" {
+			mx = 10
+		}
+	}
+	return int(mx * float32(cp))
+}
+
+// GenDeleteAllCycles: `cycles` x (put a batch of FRESH keys, look up absent keys, DeleteAll), the batches staying
+// below the grow threshold of the table most of the time so that no resize wipes the slots in between; then
+// the table is used again.
+func GenDeleteAllCycles(r *hx.Rand, hdr string, cycles int, probes bool) []string {
+	thr := growThreshold(hdr)
+	var ops []string
+	fresh := 2000000
+	for c := 0; c < cycles; c++ {
+		per := r.Range(2, 13)
+		if thr > 3 && r.Chance(3, 4) {
+			per = r.Range(thr/2+1, thr-1) // close to, but below, the threshold
+		}
+		if per > 600 {
+			per = 600
+		}
+		first := fresh
+		for j := 0; j < per; j++ {
+			ops = append(ops, fmt.Sprintf("put %d %d", fresh, c))
+			fresh++
+		}
+		if probes {
+			ops = append(ops, "probes -5", fmt.Sprintf("probes %d", first))
+		}
+		ops = append(ops, "get -5", fmt.Sprintf("get %d", first), "size", "deleteall", "size", "isempty",
+			fmt.Sprintf("get %d", first), "get -5")
+		if r.Chance(1, 3) {
+			ops = append(ops, "all", "dump")
+		}
+		if r.Chance(1, 4) { // DeleteAll of an empty table, and a key of an earlier cycle coming back
+			ops = append(ops, "deleteall", fmt.Sprintf("put %d 7", 2000000+r.Intn(fresh-2000000)))
+		}
+	}
+	ops = append(ops, "put 1 1", "put 2 2", "get 1", "get -5", "delete 1", "size", "all")
+	return ops
+}
+
+// GenGrowClearReuse: grow the table by n keys (several resizes), DeleteAll, then touch keys all over the table
+// (every bucket / home slot of the grown table), refill, DeleteAll again.
+func GenGrowClearReuse(r *hx.Rand, n int) []string {
+	var ops []string
+	for i := 0; i < n; i++ {
+		ops = append(ops, fmt.Sprintf("put %d %d", i, i))
+	}
+	ops = append(ops, "size", "deleteall", "size", "isempty")
+	for i := 0; i < n; i += 1 + r.Intn(3) {
+		switch r.Intn(3) {
+		case 0:
+			ops = append(ops, fmt.Sprintf("get %d", i))
+		case 1:
+			ops = append(ops, fmt.Sprintf("put %d %d", i, -i))
+		default:
+			ops = append(ops, fmt.Sprintf("delete %d", i))
+		}
+	}
+	ops = append(ops, "size", "all")
+	for i := 0; i < n/2; i++ {
+		ops = append(ops, fmt.Sprintf("put %d %d", 5000+i, i))
+	}
+	ops = append(ops, "deleteall", "put 3 3", "get 3", fmt.Sprintf("get %d", 5000), "size", "all", "dump")
+	return ops
+}
+
 // exhaustive enumerates every op sequence of the given length over the alphabet.
 func exhaustive(alpha []string, n int, f func([]string)) {
 	idx := make([]int, n)
@@ -641,43 +772,69 @@ func runCorpus(run *hx.Run, prop string, exec hx.Exec) {
 
 func Main(run *hx.Run) {
 	run.Stats.Rule = Rule
+	lim := NewLimiter(run)
 	runCorpus(run, "C02", Exec)
 	for _, comp := range Comps {
 		r := run.R.Fork(comp)
+		do := func(c hx.Case) bool {
+			run.Do(comp, c, Exec)
+			return lim.Stop(run)
+		}
+		// DeleteAll cycles with fresh keys, every hash function
+		for k, n := 0, run.Scale(15); k < n; k++ {
+			hdr := Header(r, comp, Hashes[k%len(Hashes)])
+			if do(hx.Case{Header: hdr, Ops: GenDeleteAllCycles(r, hdr, r.Range(3, 8), false)}) {
+				return
+			}
+		}
+		// grow, DeleteAll, reuse
+		for k, n := 0, run.Scale(8); k < n; k++ {
+			hdr := Header(r, comp, Hashes[k%len(Hashes)])
+			if do(hx.Case{Header: hdr, Ops: GenGrowClearReuse(r, r.Range(45, 260))}) {
+				return
+			}
+		}
 		// small universes, every hash function
 		for k, n := 0, run.Scale(200); k < n; k++ {
 			hname := Hashes[k%len(Hashes)]
-			c := hx.Case{Header: Header(r, comp, hname), Ops: genMixed(r, r.Range(10, 120), r.Range(3, 40))}
-			run.Do(comp, c, Exec)
+			if do(hx.Case{Header: Header(r, comp, hname), Ops: genMixed(r, r.Range(10, 120), r.Range(3, 40))}) {
+				return
+			}
 		}
 		// dense collisions with many keys: the probe walks get long, tombstones accumulate
 		for k, n := 0, run.Scale(40); k < n; k++ {
 			hname := []string{"const", "mod3", "modm"}[k%3]
-			c := hx.Case{Header: Header(r, comp, hname), Ops: genMixed(r, r.Range(100, 400), r.Range(20, 120))}
-			run.Do(comp, c, Exec)
+			if do(hx.Case{Header: Header(r, comp, hname), Ops: genMixed(r, r.Range(100, 400), r.Range(20, 120))}) {
+				return
+			}
 		}
 		// growth / shrink sweeps across the resize boundaries
 		for k, n := 0, run.Scale(16); k < n; k++ {
 			peak := r.Range(40, 300)
-			if run.Thorough() && k%16 == 0 {
+			if run.Thorough() && !lim.Search() && k%16 == 0 {
 				peak = r.Range(1100, 2300) // m reaches 2^12
 			}
-			c := hx.Case{Header: Header(r, comp, Hashes[r.Intn(len(Hashes))]), Ops: genSweep(r, peak)}
-			run.Do(comp, c, Exec)
+			if do(hx.Case{Header: Header(r, comp, Hashes[r.Intn(len(Hashes))]), Ops: genSweep(r, peak)}) {
+				return
+			}
 		}
 		// churn
 		for k, n := 0, run.Scale(16); k < n; k++ {
-			c := hx.Case{Header: Header(r, comp, Hashes[r.Intn(len(Hashes))]), Ops: GenChurn(r, r.Intn(12), r.Range(20, 150), false)}
-			run.Do(comp, c, Exec)
+			if do(hx.Case{Header: Header(r, comp, Hashes[r.Intn(len(Hashes))]), Ops: GenChurn(r, r.Intn(12), r.Range(20, 150), false)}) {
+				return
+			}
 		}
 	}
-	if run.Thorough() {
+	if run.Thorough() && !lim.Search() {
 		// every history of 5 put/delete operations over 4 keys, per implementation and hash function
 		// (each op line carries the state digest, so every shorter history is covered as a prefix)
 		alpha := []string{"put 0 1", "put 1 2", "put 2 3", "put 35 4", "delete 0", "delete 1", "delete 2", "delete 35"}
 		for _, comp := range Comps {
 			for _, hname := range []string{"const", "mod3", "id"} {
 				exhaustive(alpha, 5, func(ops []string) {
+					if lim.Stop(run) {
+						return
+					}
 					run.Do(comp, hx.Case{Header: fmt.Sprintf("comp=%s hash=%s cap=0 shuffle=0", comp, hname),
 						Ops: append(ops, "size", "all")}, Exec)
 				})
